@@ -144,7 +144,7 @@ func MatchCBOR(it *cborref.Item, e Exp) string {
 			if err != nil {
 				return "HARNESS-ERROR: bad expected integer " + e.S
 			}
-			if it.Kind != cborref.Nint || it.U != uint64(-(v + 1)) {
+			if it.Kind != cborref.Nint || it.U != uint64(-(v+1)) {
 				return fmt.Sprintf("expected integer %s, got %s", e.S, it)
 			}
 			return ""
